@@ -128,6 +128,7 @@ def _nonlin_solver(fcn, x0, params,
                 print("%6d: |dx|=%.3e, |f|=%.3e" % (i, dx_norm, y_norm))
         if to_stop:
             converge = True
+            x = xnew  # the iterate that passed the test is the one to return
             break
 
         # adjust forcing parameters for inexact solve
